@@ -522,6 +522,7 @@ def run_r5(repo: Repo, res: Result) -> None:
             key_marks: list[str] = list(partial)
             bad_keys: list[str] = []
             bad_vals: list[str] = []
+            unsure: list[str] = []
             for d in dicts:
                 for k, v in it.cell(d).entries:
                     ks = it.scalars(k)
@@ -531,14 +532,22 @@ def run_r5(repo: Repo, res: Result) -> None:
                     keids = frozenset().union(*[sc.eids for sc in ks]) if ks else frozenset()
                     ksrcs = frozenset().union(*[sc.srcs & pset for sc in ks]) if ks else frozenset()
                     for sh in v:
-                        if not (isinstance(sh, Ref) and sh.kind == "coll" and isinstance(sh.key, tuple) and sh.key[-1] == "search"):
-                            bad_vals.append("the value stored for a key is not (only) the result of that key's own search")
+                        if not (isinstance(sh, Ref) and sh.kind == "coll"):
+                            bad_vals.append("the value stored for a key is not the list of imports found by a search")
                             continue
                         vs = it.scalars(it.elems(V(sh)))
-                        veids = frozenset().union(*[sc.eids for sc in vs]) if vs else frozenset()
-                        vsrcs = frozenset().union(*[sc.srcs & pset for sc in vs]) if vs else frozenset()
-                        if veids != keids or vsrcs != ksrcs or not keids:
-                            bad_vals.append("the search stored under a key was not run for (exactly) that key")
+                        if not vs or not all("search" in sc.srcs for sc in vs):
+                            bad_vals.append("the value stored for a key is not (only) the result of a graph search")
+                            continue
+                        veids = frozenset().union(*[sc.eids for sc in vs])
+                        vsrcs = frozenset().union(*[sc.srcs & pset for sc in vs])
+                        key_loops = {x for x in keids if x in it.loop_eids}
+                        if vsrcs != ksrcs:
+                            bad_vals.append(f"the key derives from {sorted(ksrcs)}, the search stored under it was run for {sorted(vsrcs)}")
+                        elif key_loops and not (it.cell(sh).born & key_loops):
+                            bad_vals.append("the list stored under a key is shared between the keys (created outside the loop over the keys): it also holds the imports found for other keys")
+                        elif veids != keids or not keids:
+                            unsure.append("the search result and the key it is stored under could not be matched (they stem from different iterations)")
                         key_marks += [f"{mk[2]} [{mk[1]}]" for sc in vs for mk in sc.marks if mk[0] == "part"]
                         key_marks += [f"{mk[2]} [{mk[1]}]" for mk in it.cell(sh).part]
             n += 1
@@ -548,6 +557,9 @@ def run_r5(repo: Repo, res: Result) -> None:
             if not ok:
                 detail = (f"parameter(s) {missing} never reach a search" if missing else bad_keys[0] if bad_keys else f"not every given module gets a search / an entry of its own: {sorted(set(key_marks))[0]}") + ": a subject/object of the batch gets no judgement of its own"
             res.add("C03.R5", f"{head}::all keys", ok, detail, where(impl, impl.node), kind="flow")
+            if unsure and not bad_vals:
+                res.undecide("C03.R5", f"{head}::result per key", unsure[0], where(impl, impl.node))
+                continue
             n += 1
             ok = not bad_vals
             res.add("C03.R5", f"{head}::result per key", ok, "the result of each search is stored under its own key" if ok else bad_vals[0], where(impl, impl.node), kind="flow")
